@@ -4,6 +4,7 @@ From Coq Require Import Strings.String Strings.Byte.
 From Coq Require Import List Arith NArith ZArith Bool.
 From PV Require Import Base.Bytes Keystore.Locks Keystore.Load.
 From PV Require Generated.GenKeystore.
+From PV Require Import Chain.Model Chain.Run Node.Model Node.Proofs Node.Chain.
 Import ListNotations.
 
 (** Go's sync.RWMutex as a transition system (a pending writer blocks new readers): if no thread's program
@@ -42,3 +43,23 @@ Theorem C20_reentrant_refuted : exists s,
   reachable (init [[OpRLock; OpRLock; OpRUnlock; OpRUnlock]; [OpLock; OpUnlock]]) s /\ stuck s.
 Proof. exact reentrant_can_deadlock. Qed.
 Print Assumptions C20_reentrant_refuted.
+
+(** ** snapshot reads (Node/Model.v: the versioned multistore and the deliver/check branches of baseapp) *)
+(** every query, whatever is executing when it arrives, is answered from a committed version: the state [run]
+    computes from the blocks completed so far (height 0 = latest) or from the first k+1 of them (height k+1);
+    never from a deliver or check branch *)
+Theorem C20_queries_read_committed : forall o Q A (query : chain -> Q -> A) g es i h q,
+  nth_error es i = Some (EQuery h q) ->
+  nth_error (snd (cexec o Q A query (cstart g) es)) i =
+  Some (OAnswer (option_map (fun c => query c q) (committed_state o g (ccompleted Q (firstn i es)) h))).
+Proof. exact node_queries_read_committed. Qed.
+Print Assumptions C20_queries_read_committed.
+
+(** repeated queries at a fixed height return identical answers no matter what happens in between *)
+Theorem C20_fixed_height_stable : forall o Q A (query : chain -> Q -> A) (n : cnode) es i j k q a,
+  i <= j ->
+  nth_error es i = Some (EQuery (S k) q) -> nth_error es j = Some (EQuery (S k) q) ->
+  nth_error (snd (cexec o Q A query n es)) i = Some (OAnswer (Some a)) ->
+  nth_error (snd (cexec o Q A query n es)) j = Some (OAnswer (Some a)).
+Proof. exact node_fixed_height_stable. Qed.
+Print Assumptions C20_fixed_height_stable.
